@@ -252,10 +252,13 @@ pub fn script_frame(cfg: &BerCfg, e: usize, w: usize, j: u64) -> ScriptFrame {
         0..=54 => 0,
         55..=79 => 1_000 + key(1) % 1_000_000,
         80..=95 => 1_000_000 + key(1) % 1_000_000_000,
-        _ => 1_000_000_000 + key(1) % 100_000_000_000,
+        _ => 1_000_000_000 + key(1) % 20_000_000_000,
     };
     if cfg.slow_workers.contains(&w) {
-        latency_ns = latency_ns.saturating_mul(50).saturating_add(5_000_000);
+        // (capped at 30 s of simulated time per frame: long against every timer in sight — the
+        // 500 ms report interval, a 5 s receive timeout — but short enough that a design which
+        // polls every few milliseconds can still be simulated step by step)
+        latency_ns = latency_ns.saturating_mul(50).saturating_add(5_000_000).min(30_000_000_000);
     }
     let class = key(2) % 100;
     let pick_positions = |count: usize, space: usize, slot: u64| -> Vec<usize> {
